@@ -73,8 +73,15 @@ def canon (s : List Char) : List Char := (fqdn s).map lowerAscii
 /-- `strconv.Itoa(int(qtype))` (the `qtypeStrCache` table holds the same strings). -/
 def qtypeStr (q : Nat) : List Char := Nat.toDigits 10 q
 
+/-- a `|` inside the name is spelled `\124` (presentation-format escape), so that the question part of
+a key never contains the separator of `responseCacheKey` / `dnsCacheBaseKey` -/
+def escBar (l : List Char) : List Char := l.flatMap fun c => if c = '|' then ['\\', '1', '2', '4'] else [c]
+
+/-- the name part of a key: canonical name with `|` escaped -/
+def kname (qname : List Char) : List Char := escBar (canon qname)
+
 /-- `DnsController.cacheKey` -/
-def cacheKey (qname : List Char) (qtype : Nat) : Key := canon qname ++ qtypeStr qtype
+def cacheKey (qname : List Char) (qtype : Nat) : Key := kname qname ++ qtypeStr qtype
 
 /-- Which upstream a request was routed to, as `responseCacheScope` sees it. -/
 inductive Route where
@@ -124,10 +131,15 @@ structure Cfg where
   fixed : List (List Char × Int)       -- `fixedDomainTtl`
 deriving Repr
 
-/-- `ParseFixedDomainTtl`: keys are lower-cased, a later line for the same name overwrites an
-earlier one (a Go map).  The result is an association list with unique keys. -/
+/-- a configured `fixed_domain_ttl` name as the table stores it: trailing dot removed, lower-cased
+(the table is asked with the dot-less, lower-cased question name) -/
+def fixedName (s : List Char) : List Char :=
+  (if s.getLast? = some '.' then s.dropLast else s).map lowerAscii
+
+/-- `ParseFixedDomainTtl`: names normalised (`fixedName`), a later line for the same name overwrites
+an earlier one (a Go map).  The result is an association list with unique keys. -/
 def parseFixed (raw : List (List Char × Int)) : List (List Char × Int) :=
-  raw.foldl (fun m p => (p.1.map lowerAscii, p.2) :: m.filter (fun q => q.1 ≠ p.1.map lowerAscii)) []
+  raw.foldl (fun m p => (fixedName p.1, p.2) :: m.filter (fun q => q.1 ≠ fixedName p.1)) []
 
 /-- `normalizeDnsRuntimeBehavior` (+ `ParseFixedDomainTtl` for the `fixed_domain_ttl` lines) -/
 def Cfg.normalize (opt : Bool) (stale maxSize : Int) (rawFixed : List (List Char × Int)) : Cfg :=
@@ -204,8 +216,8 @@ def splitHost (host : List Char) : List Char × List Char :=
 
 /-- `NormalizeAndCacheDnsResp_`: the TTL handed to `updateDnsCache` (TTL of the first answer, 120
 for an empty answer, at most one year). -/
-def normTtl (nAns : Nat) (firstTtl : Nat) : Nat :=
-  min (if nAns > 0 then firstTtl else 120) 31536000
+def normTtl (nAns : Nat) (firstTtl : Nat) (otherTtl : Nat := firstTtl) : Nat :=
+  min (if nAns = 0 then 120 else if nAns = 1 then firstTtl else min firstTtl otherTtl) 31536000
 
 /-- the guard at the top of `NormalizeAndCacheDnsResp_` -/
 def cacheable (isResponse : Bool) (nQuestions rcode : Nat) (qclass : Nat := classIN) : Bool :=
@@ -491,7 +503,8 @@ def run (w : World) : List Op → World × List LRes
 
 /-- what the upstream answers when it is asked (round trip: one second) -/
 structure Reply where
-  rttl : Nat
+  rttl : Nat             -- TTL of the first answer record
+  ottl : Nat             -- TTL of the answer records after the first
   ans : Nat
   nAns : Nat
   ns : Nat
@@ -509,7 +522,7 @@ def askOps (w : World) (t : Int) (name : List Char) (qtype qclass : Nat) (r : Ro
   let key := requestKey name qtype qclass r
   let store : List Op :=
     if cacheable true 1 rep.rcode qclass then
-      [.insert (t + SEC) key (fqdn name) qtype (normTtl rep.nAns rep.rttl) rep.ans rep.nAns rep.ns false]
+      [.insert (t + SEC) key (fqdn name) qtype (normTtl rep.nAns rep.rttl rep.ottl) rep.ans rep.nAns rep.ns false]
     else []
   let first : List Op := List.replicate g (.lookup t key false)
   match (step w (.lookup t key false)).2 with
